@@ -26,6 +26,7 @@ var extractors = []extractor{
 	{"Sub", genSub},
 	{"WrapRO", genWrapRO},
 	{"AuthFile", genAuthFile},
+	{"Locks", genLocks},
 }
 
 func main() {
